@@ -100,6 +100,9 @@ func schemaStmts(rows int) []string {
 		"CREATE INDEX wv ON w (v)",
 		fmt.Sprintf("WITH RECURSIVE c(x) AS (SELECT 1 UNION ALL SELECT x+1 FROM c WHERE x < %d) INSERT INTO t (b, c) SELECT x%%7, CASE x%%3 WHEN 0 THEN 'Row' ELSE 'row' END||(x%%11)||hex(zeroblob(x%%40)) FROM c", rows),
 		fmt.Sprintf("WITH RECURSIVE c(x) AS (SELECT 1 UNION ALL SELECT x+1 FROM c WHERE x < %d) INSERT INTO w SELECT 'k'||x, x%%5, hex(zeroblob(700)) FROM c", rows),
+		// rows that take long to hand over (hundreds of overflow pages each)
+		"CREATE TABLE big (id INTEGER PRIMARY KEY, payload BLOB)",
+		"INSERT INTO big (payload) VALUES (zeroblob(250000)), (zeroblob(250001)), (zeroblob(250002)), (zeroblob(250003))",
 	}
 }
 
@@ -151,7 +154,7 @@ type spec struct {
 	Case    []bool // letter case pattern of the keywords in the fresh file's DDL and in parse-fresh statements
 }
 
-var kinds = []string{"parse-fresh", "select-probed", "select", "select-wr", "indexed", "indexed-nocase", "indexed-eq", "indexed-wr", "pk", "rowid", "columns", "low-scan", "parse", "compare", "driver", "open-close", "schema"}
+var kinds = []string{"parse-fresh", "select-probed", "select", "select-wr", "indexed", "indexed-nocase", "indexed-eq", "indexed-wr", "pk", "rowid", "columns", "low-scan", "parse", "compare", "driver", "driver-early-close", "open-close", "schema"}
 
 var statements = []string{
 	"CREATE TABLE t (a INTEGER PRIMARY KEY, b, c TEXT COLLATE NOCASE)",
@@ -369,6 +372,42 @@ func runOp(h *handles, o opSpec, yield bool, pattern []bool) string {
 			if yield {
 				runtime.Gosched()
 			}
+		}
+		if err := rows.Err(); err != nil {
+			return fail(err)
+		}
+		rows.Close()
+	case "driver-early-close":
+		// a result set of slow rows is closed after one or two of them; the
+		// connection goes back to the pool and the next query is likely to
+		// get it: by then the first query has to be over entirely
+		rows, err := h.pool[o.File].Query("SELECT id, payload FROM big")
+		if err != nil {
+			return fail(err)
+		}
+		for n := 0; n <= o.Arg%2 && rows.Next(); n++ {
+			var id int64
+			var p []byte
+			if err := rows.Scan(&id, &p); err != nil {
+				rows.Close()
+				return fail(err)
+			}
+			fmt.Fprintf(&b, "%d:%d;", id, len(p))
+		}
+		if err := rows.Close(); err != nil {
+			return fail(err)
+		}
+		rows, err = h.pool[o.File].Query("SELECT id FROM big")
+		if err != nil {
+			return fail(err)
+		}
+		for rows.Next() {
+			var id int64
+			if err := rows.Scan(&id); err != nil {
+				rows.Close()
+				return fail(err)
+			}
+			fmt.Fprintf(&b, "%d;", id)
 		}
 		if err := rows.Err(); err != nil {
 			return fail(err)
